@@ -39,12 +39,33 @@ def run(cx, chk):
         r2b(cx, chk, cfg, F)
     drop_seen = {}
 
+    chk.rule("C03.R8", "'after every public operation' includes operations that end by unwinding out of the eviction callback: at every callback site each node is in its list's chain iff it is in that list's index")
+    cb_sites = {}
+
     def extra(cfg, F, f, p, w):
+        from .lib.absint import fmt_val
+        for (i, e, kind, snap) in w.snapshots:
+            if kind != "cb":
+                continue
+            cb_sites[cfg] = cb_sites.get(cfg, 0) + 1
+            for node, st in snap.items():
+                if st.kind in ("unknown", "sentinel") or st.own != "raw":
+                    continue
+                L, I = isinstance(st.link, tuple), isinstance(st.index, tuple)
+                if L != I or (L and I and st.link[1:] != st.index[1:]):
+                    g = F.fns.get(e.get("fn")) or f
+                    chk.violation("C03.R8", "%s|%s" % (f["q"], st.src.split("#")[0]),
+                                  "the eviction callback runs while node %s is linked=%s indexed=%s: if it unwinds, the operation ends with a chain whose nodes are not exactly the entries of the index"
+                                  % (fmt_val(node), st.link if L else False, st.index if I else False), g["span"]["file"], e.get("ln"), g["q"], ["root " + f["q"]], cfg)
         if ntrun.is_teardown(f) and f["q"].startswith("<lru::raw::RawLRU"):
             frees = [e for e in w.events_on if e[1] == "free-sentinel"]
             reboxes = [e for e in w.events_on if e[1] == "rebox"]
             drop_seen.setdefault(cfg, []).append((len(frees), len(reboxes), [e for e in p.events if e["ev"] == "loop"]))
     ntrun.report_findings(cx, chk, ("C03.",), extra)
+    for cfg, F in cx.cfgs():
+        chk.floor("C03.R8", "callback site visits in %s" % cfg, cb_sites.get(cfg, 0), 20)
+        if not any(k.startswith("C03.R8|") for k in chk.violations):
+            chk.ob("C03.R8", cfg + ":callback-sites", "chain = index at %d callback site visits" % cb_sites.get(cfg, 0))
     # R7: the same typestate obligations when a lookup by a node's own key may MISS (K's Eq/Hash are user code and need not be
     # consistent; a safe API must stay memory-safe): the code has to branch on the lookup's result before it unlinks / frees the node
     chk.rule("C03.R7", "typestate also holds when own-key lookups may miss (inconsistent user Eq/Hash): the node is unlinked/freed only on the hit branch")
